@@ -33,6 +33,9 @@ def align_guard(ctx, rule='C16.align-guard'):
     for fn in F.fns:
         if not fn.eff_pub or fn.kind == 'Closure':
             continue
+        if not stores_to_field(fn, 'OpenOptions', 'pagesize'):
+            continue
+        fn = ctx.x(fn)       # the limits may sit in a private `validate_pagesize(pagesize)` the builder calls
         du = None
         for bb, si, s in stores_to_field(fn, 'OpenOptions', 'pagesize'):
             du = du or ctx.du(fn)
@@ -897,7 +900,7 @@ def pagesize_limits(ctx, rule='C16.pagesize-limits'):
 
     def is_const(e):
         if e[0] == 'const':
-            return isinstance(e[1], int) and e[1] > 8
+            return isinstance(e[1], int) and e[1] > 8 and e[1] != 1024      # (1024 and 8 are the builder's own limits: restating them elsewhere changes nothing)
         if e[0] == 'bin' and e[1] in ('Mul', 'Shl', 'Add'):
             return is_const(e[2]) or is_const(e[3]) and e[2][0] == 'const' and e[3][0] == 'const'
         return False
